@@ -6,6 +6,8 @@ use std::time::Instant;
 
 
 mod c01;
+mod c02;
+mod c11;
 mod c15;
 mod registry;
 
@@ -15,6 +17,8 @@ fn main() {
     let (items, rule): (Vec<Item>, &str) = match args.prop.as_str() {
         "C15" => (c15::items(&args), c15::RULE),
         "C01" => (c01::items(&args), c01::RULE),
+        "C02" => (c02::items(&args), c02::RULE),
+        "C11" => (c11::items(&args), c11::RULE),
         p => panic!("mon_ff does not serve property {p}"),
     };
     let rep = run_items(&args, items);
